@@ -13,35 +13,44 @@ pub struct Outcome {
     pub stats: Stats,
     pub fail: Option<Fail>,
     pub ops_done: usize,
+    /// a work/progress failure not owned by the focused property (the case went on)
+    pub deferred: Option<Fail>,
 }
 
 pub fn run_case(case: &Case, big: bool) -> Outcome {
+    run_case_focus(case, big, None)
+}
+
+pub fn run_case_focus(case: &Case, big: bool, focus: Option<Prop>) -> Outcome {
     match case.family {
-        Family::P => run_case_f::<FamP>(case, big),
-        Family::T => run_case_f::<FamT>(case, big),
+        Family::P => run_case_f::<FamP>(case, big, focus),
+        Family::T => run_case_f::<FamT>(case, big, focus),
     }
 }
 
-pub fn run_case_f<F: Fam>(case: &Case, big: bool) -> Outcome {
+pub fn run_case_f<F: Fam>(case: &Case, big: bool, focus: Option<Prop>) -> Outcome {
     fuse_off();
     let mut ctx: Ctx<F> = Ctx::new(case);
     ctx.big = big;
+    ctx.focus = focus;
     let trace = std::env::var_os("GV_TRACE").is_some();
+    let _ = take_deferred();
     for (i, op) in case.ops.iter().enumerate() {
         if trace {
             eprintln!("#{} {:?}\n     before: {:?} | {:?} | sets {:?} | {:?}", i, op, ctx.st(0), ctx.st(1), ctx.st(2), ctx.st(3));
         }
         if let Err(f) = ctx.step(i, op) {
             let stats = ctx.stats.clone();
+            let deferred = ctx.deferred.take();
             // the maps may be inconsistent: leak them rather than run destructors on bad state
             std::mem::forget(ctx);
-            return Outcome { stats, fail: Some(f), ops_done: i };
+            return Outcome { stats, fail: Some(f), ops_done: i, deferred };
         }
     }
     let n = case.ops.len();
     match ctx.finish() {
-        Ok(stats) => Outcome { stats, fail: None, ops_done: n },
-        Err(f) => Outcome { stats: Stats::default(), fail: Some(f), ops_done: n },
+        Ok(stats) => Outcome { stats, fail: None, ops_done: n, deferred: take_deferred() },
+        Err(f) => Outcome { stats: Stats::default(), fail: Some(f), ops_done: n, deferred: take_deferred() },
     }
 }
 
@@ -79,6 +88,8 @@ pub fn stats_json(st: &Stats) -> Value {
         "faults_injected": st.faults,
         "ops_by_kind": st.by_op,
         "excluded_by_known_finding": st.excluded_known,
+        "calls_continued_past_a_short_cursor_owned_by_C05": st.soft_cursor_desync,
+        "foreign_work_or_progress_failures_not_ending_the_case": st.deferred_foreign,
     })
 }
 
@@ -128,7 +139,16 @@ pub fn case_time_limit(thorough: bool) -> u64 {
 
 pub fn worker(cfg: &WorkerCfg) -> Value {
     let gp = cfg.profile.unwrap_or(cfg.prop);
-    let profile = gen::profile(gp, cfg.thorough);
+    let mut profile = gen::profile(gp, cfg.thorough);
+    if std::env::var_os("GV_MIRI_PROFILE").is_some() {
+        // Miri executes ~100 checked operations per second: small maps, short histories
+        profile.many_max = 18;
+        profile.max_ops = 16;
+        profile.medium_max = 40;
+        profile.w.fill = 0;
+        profile.w.churn = 0;
+        profile.w.probe = 0;
+    }
     let strat = if gp == C14 { gen::c14_case_strategy(cfg.thorough) } else { gen::case_strategy(&profile) };
     let mut seed_bytes = [0u8; 32];
     let s = splitmix(cfg.seed ^ 0xA5A5_0000 ^ ((cfg.prop as u64) << 40));
@@ -184,7 +204,7 @@ pub fn worker(cfg: &WorkerCfg) -> Value {
             let _ = std::fs::write(p, serde_json::to_string(&case).unwrap_or_default());
         }
         let t0 = std::time::Instant::now();
-        let out = run_case(&case, big);
+        let out = run_case_focus(&case, big, Some(prop));
         let dt = t0.elapsed().as_secs_f64();
         let mut a = acc.borrow_mut();
         if dt > a.slowest.0 {
@@ -201,6 +221,14 @@ pub fn worker(cfg: &WorkerCfg) -> Value {
             }
             if a.samples.len() < 3 {
                 a.samples.push(case.render(12));
+            }
+        }
+        if let Some(df) = &out.deferred {
+            if !a.failing {
+                a.foreign_n += 1;
+                if a.foreign.len() < 5 {
+                    a.foreign.push(format!("(case continued) {}", df.describe()));
+                }
             }
         }
         if let Some(f) = out.fail {
@@ -232,7 +260,7 @@ pub fn worker(cfg: &WorkerCfg) -> Value {
         match e {
             TestError::Fail(reason, case) => {
                 // re-run the minimal case to get its own failure description
-                let out = run_case(&case, big);
+                let out = run_case_focus(&case, big, Some(prop));
                 let desc = out.fail.as_ref().map(|f| f.describe()).unwrap_or_else(|| reason.message().to_string());
                 let sig = out.fail.as_ref().map(|f| f.signature()).unwrap_or_default();
                 violation = json!({
@@ -265,6 +293,6 @@ pub fn worker(cfg: &WorkerCfg) -> Value {
 }
 
 /// strict replay of one saved case: returns the failure (any property) if there is one
-pub fn replay(case: &Case, big: bool) -> Outcome {
-    run_case(case, big)
+pub fn replay(case: &Case, big: bool, focus: Option<Prop>) -> Outcome {
+    run_case_focus(case, big, focus)
 }
